@@ -17,6 +17,17 @@ Written from `doc/pseudo-instructions.md`, section "Conditional Assembly" only:
   a corresponding ENDIF. 'Open' constructs will lead to an error message at the end of an assembly
   path"; "there must be exactly one ENDCASE for every SWITCH".
 
+* "only one of the blocks will be *assembled*": a line that is not assembled has no effect at all – it
+  emits no code, defines no symbol and references none.  What an assembled ordinary line does with symbols
+  is written from `doc/assembler-usage.md` (source line format `[label[:]] <mnemonic> …`) and
+  `doc/pseudo-instructions.md`: EQU/SET (`=`, `:=`); STRUCT – calling a structure "reserves as much memory as
+  needed to hold an instance of the structure, and additionally defines a symbol for every element of the
+  structure with its address", named `<label>_<element>`; MACRO – `INTLABEL` "rules whether a label defined in a
+  line that calls this macro may be used as an additional parameter inside the [body] or not, instead of simply
+  'labeling' the line" (parameter `__LABEL__`), `GLOBALSYMBOLS` "rules whether labels defined in the macro's body
+  shall be local to this macro or also be available outside the macro"; IFUSED tests whether the symbol was
+  referenced so far.
+
 Conditions are abstracted to what the evaluator delivered (a truth value, a raw
 defined/used/found observation, one "is non-empty" flag per IFB argument, a selector value).
 -/
@@ -56,12 +67,68 @@ def Cond.argc : Cond → Nat
   | .blank _ nb => nb.length
   | _ => 1
 
+/-- what an ordinary source line ("leaf") has to do with symbols -/
+inductive LeafKind where
+  /-- no label, no symbol involved (`db m`) -/
+  | plain
+  /-- `sym: <machine instruction>` (the generated sources use `cp m` = bytes `FE m`) -/
+  | instr
+  /-- `sym: db m` – label in front of a data pseudo-op -/
+  | pseudo
+  /-- `sym: mac m` – label in front of a call of a macro defined without `INTLABEL` -/
+  | macro
+  /-- `sym: mac m`, macro with `{INTLABEL}` whose body does not place `__LABEL__`: no symbol comes into being -/
+  | macroInt
+  /-- `{INTLABEL},{GLOBALSYMBOLS}` macro whose body is `__LABEL__: db m`: the body defines `sym` -/
+  | macroIntGlobal
+  /-- `{INTLABEL}` macro whose body is `__LABEL__: db m`: the symbol is local to the expansion -/
+  | macroIntLocal
+  /-- `sym: srec` – instantiation of a one-element structure: reserves a cell, defines `sym` and `sym_elem` -/
+  | struct
+  /-- `sym equ m` / `sym = m` -/
+  | equ
+  /-- `sym set m` / `sym := m` -/
+  | set
+  /-- `db sym` – a reference to a symbol (defined in front of the construct with value `m`) -/
+  | use
+deriving DecidableEq, Repr
+
+/-- an ordinary source line: `marker` identifies it, `sym` is the number of the symbol it is about -/
+structure Leaf where
+  marker : Nat
+  kind : LeafKind := .plain
+  sym : Nat := 0
+deriving DecidableEq, Repr
+
+/-- number of the element symbol `<label>_<element>` that instantiating the structure under label `s` defines -/
+def elemSym (s : Nat) : Nat := s + 500
+
+/-- the (globally visible) symbols an *assembled* leaf defines -/
+def Leaf.defines (l : Leaf) : List Nat :=
+  match l.kind with
+  | .instr | .pseudo | .macro | .macroIntGlobal | .equ | .set => [l.sym]
+  | .struct => [l.sym, elemSym l.sym]
+  | .plain | .macroInt | .macroIntLocal | .use => []
+
+/-- the symbols an assembled leaf references -/
+def Leaf.uses (l : Leaf) : List Nat :=
+  match l.kind with
+  | .use => [l.sym]
+  | _ => []
+
+/-- the code bytes an assembled leaf emits -/
+def Leaf.code (l : Leaf) : List Nat :=
+  match l.kind with
+  | .instr => [254, l.marker]
+  | .struct | .equ | .set => []
+  | _ => [l.marker]
+
 /-- one source line, as far as conditional assembly is concerned.  `argc` is the number of arguments
 written on the line (the well-formed number is 1 for IF-family/ELSEIF/SWITCH, 0 for
 ELSE/ENDIF/ELSECASE/ENDCASE, ≥ 1 for CASE, any for IFB/IFNB). -/
 inductive Stmt where
-  /-- any other statement; `m` identifies it (the generated sources use `db m`) -/
-  | leaf (m : Nat)
+  /-- any other statement (the generated sources use `db m` and the labelled forms of `LeafKind`) -/
+  | leaf (l : Leaf)
   | iff (argc : Nat) (c : Cond)
   /-- `ELSEIF e` (argc = 1) and `ELSE` = `ELSEIF` without argument (argc = 0) -/
   | elseif (argc : Nat) (c : Bool)
@@ -76,7 +143,7 @@ deriving DecidableEq, Repr
 
 mutual
 inductive Skel where
-  | leaf (m : Nat)
+  | leaf (l : Leaf)
   /-- `IF c / b / e… / ENDIF` -/
   | ladder (c : Cond) (b : Block) (e : Elifs)
   /-- `SWITCH v / pre / cases… / ENDCASE` -/
@@ -98,7 +165,7 @@ end
 /- source order of the statements of a skeleton -/
 mutual
 def flat : Skel → List Stmt
-  | .leaf m => [.leaf m]
+  | .leaf l => [.leaf l]
   | .ladder c b e => [.iff c.argc c] ++ flatB b ++ flatE e ++ [.endif 0]
   | .switch v pre cs => [.switch 1 v] ++ flatB pre ++ flatC cs ++ [.endcase 0]
 def flatB : Block → List Stmt
@@ -116,22 +183,32 @@ end
 
 /- **the documented selection**: the leaves that are assembled, in order -/
 mutual
-def sel : Skel → List Nat
-  | .leaf m => [m]
+def sel : Skel → List Leaf
+  | .leaf l => [l]
   | .ladder c b e => if c.holds then selB b else selE e
   | .switch v pre cs => selB pre ++ selC v cs
-def selB : Block → List Nat
+def selB : Block → List Leaf
   | .nil => []
   | .cons s b => sel s ++ selB b
-def selE : Elifs → List Nat
+def selE : Elifs → List Leaf
   | .done => []
   | .els b => selB b
   | .elif c b e => if c then selB b else selE e
-def selC (x : Val) : Cases → List Nat
+def selC (x : Val) : Cases → List Leaf
   | .done => []
   | .elsecase b => selB b
   | .case v vs b cs => if (v :: vs).contains x then selB b else selC x cs
 end
+
+/-- the code of a list of assembled leaves -/
+def codeOf (ls : List Leaf) : List Nat := ls.flatMap Leaf.code
+
+/-- **only labels of selected branches exist**: the symbols defined after the pass are the union over the
+selected leaves of what each defines -/
+def definedBy (ls : List Leaf) : List Nat := ls.flatMap Leaf.defines
+
+/-- the symbols referenced ("used") are those the selected leaves reference -/
+def usedBy (ls : List Leaf) : List Nat := ls.flatMap Leaf.uses
 
 /- the documented "none of the CASE conditions was true" warnings: one per *assembled* SWITCH
 without ELSECASE whose comparisons all fail -/
